@@ -11,7 +11,12 @@
 (* a known task (only: nothing changes), the number of goroutines of a running  *)
 (* task, parked error-waiter goroutines, orphan checkpoints after a failed      *)
 (* create (C19's business).  A failed pause may leave the task paused if every  *)
-(* view says so.                                                                *)
+(* view says so.  An error event of the reader machinery ("err") may or may not *)
+(* pause a running task: it counts as paused iff every view says Paused, else   *)
+(* it must still be Running in every view and read; for a paused or deleted     *)
+(* task nothing may change.  A reload under which a store call failed           *)
+(* ("restart" with fired) may leave a task Running or Paused, whichever every   *)
+(* view says; without a fault the auto-start flag decides.                      *)
 (*                                                                              *)
 (* Known findings (env KF_<id>, ids below): when enabled, the corresponding     *)
 (* deviation is tolerated through exemption sets (xt tasks whose views are      *)
@@ -31,6 +36,7 @@ KFPoller == "C11_poller_leak"          \* channel poller of an entity released w
 KFShared == "C11_shared_stream_close"  \* stopping a collection closes the streams of other collections on the shared handler
 KFJoined == "C11_joined_stream_leak"   \* a collection that joined an existing handler is not removed from it when its task stops
 KFLate   == "C11_late_register_leak"   \* an MQ registration that completes after its collection was stopped stays
+KFInt    == "C11_internal_pause_torn"  \* failed store update in an internal (unguarded) pause - error event, reload: memory Paused and readers stopped, store/gauge keep the old state
 
 VARIABLES tr, l, xt, xa, xr, xq
 tvars == <<vars, tr, l, xt, xa, xr, xq>>
@@ -38,8 +44,8 @@ tvars == <<vars, tr, l, xt, xa, xr, xq>>
 ApiOps == {"create", "pause", "resume", "delete", "get", "list"}
 StateOK(f) == \A t \in Tasks : f[t] \in TStates \cup {"err"}
 WellFormed(e) ==
-  /\ e.op \in ApiOps \cup {"restart", "settle", "release"}
-  /\ (e.op \in {"create", "pause", "resume", "delete", "get", "release"} => e.task \in Tasks)
+  /\ e.op \in ApiOps \cup {"restart", "settle", "release", "err"}
+  /\ (e.op \in {"create", "pause", "resume", "delete", "get", "release", "err"} => e.task \in Tasks)
   /\ StateOK(e.get) /\ StateOK(e.list) /\ StateOK(e.stored) /\ StateOK(e.mem)
   /\ \A a \in Targets : e.ent[a] \in Int
   /\ \A t \in Tasks : e.tgt[t] \in Targets /\ e.tgt["t1"] = "a1"
@@ -82,7 +88,7 @@ BindObs(e) ==
   /\ aux' = [t \in Tasks |-> e.rpc[t] + e.sub[t] + e.gl[t] > 0]
   /\ skok' = [t \in Tasks |-> e.seekok[t]]
   /\ held' = [t \in Tasks |-> e.held[t]]
-  /\ settled' = settled /\ own' = own
+  /\ settled' = settled /\ own' = own /\ evl' = evl
   /\ zomb' = [a \in Targets |-> Left(e, a, KFOn(KFPoller))]
   /\ busy' = IF e.cpu > 40 /\ e.win >= 300 THEN 1 ELSE 0
 
@@ -102,6 +108,10 @@ SharedNow(e) == \* the streams of other tasks of the same target shrank while th
 JoinedNow(e) == \* the stopped task keeps a stream on a handler it shares with the other task of its target
   /\ KFOn(KFJoined) /\ e.op \in {"pause", "delete"} /\ e.ok /\ e.reg[e.task] > 0
   /\ \E u \in Tasks : u # e.task /\ e.tgt[u] = e.tgt[e.task]
+
+\* an internal pause whose store update failed: memory says Paused, the store (and with it the API and the gauges)
+\* kept Running.  Under the finding the task counts as what the store says and its memory / reader side is exempt.
+TornInt(e, t) == KFOn(KFInt) /\ e.fired /\ cst[t] # "none" /\ e.mem[t] = "Paused" /\ e.stored[t] = "Running"
 
 \* a task leaves the exemptions when it is deleted or successfully (re)started
 Cleared(e) == IF e.op \in {"delete", "resume"} /\ e.ok THEN {e.task} ELSE {}
@@ -128,8 +138,24 @@ TStep ==
                /\ (OrphanNow(e) => PrintT("KF " \o plan \o " " \o KFOrphan))
                /\ (SharedNow(e) # {} => PrintT("KF " \o plan \o " " \o KFShared))
           [] e.op = "restart" ->
-               /\ GhostRestart([t \in Tasks |-> IF cst[t] = "none" THEN "none" ELSE IF Das(t) THEN "Paused" ELSE "Running"])
-               /\ xt' = {} /\ xa' = {} /\ xr' = {} /\ xq' = {}
+               LET torn == {t \in Tasks : TornInt(e, t)}
+                   nc == [t \in Tasks |-> IF cst[t] = "none" THEN "none"
+                                           ELSE IF t \in torn THEN "Running"
+                                           ELSE IF e.fired /\ AllViewsSay(e, t, "Paused") THEN "Paused"
+                                           ELSE IF e.fired /\ AllViewsSay(e, t, "Running") THEN "Running"
+                                           ELSE IF Das(t) THEN "Paused" ELSE "Running"] IN
+               /\ GhostRestart(nc, e.fired)
+               /\ xt' = torn /\ xa' = {e.tgt[t] : t \in torn} /\ xr' = {} /\ xq' = {}
+               /\ (torn # {} => PrintT("KF " \o plan \o " " \o KFInt))
+          [] e.op = "err" ->
+               LET t == e.task
+                   torn == cst[t] = "Running" /\ TornInt(e, t)
+                   nc == IF cst[t] = "Running" /\ AllViewsSay(e, t, "Paused") THEN [cst EXCEPT ![t] = "Paused"] ELSE cst IN
+               /\ GhostErr(nc, t, TRUE, e.fired)
+               /\ xt' = (IF torn THEN xt \cup {t} ELSE xt)
+               /\ xa' = (IF torn THEN xa \cup {e.tgt[t]} ELSE xa)
+               /\ UNCHANGED <<xr, xq>>
+               /\ (torn => PrintT("KF " \o plan \o " " \o KFInt))
           [] e.op = "settle" ->
                /\ GhostSettle /\ UNCHANGED <<xt, xa, xr, xq>>
           [] e.op = "release" ->
@@ -141,7 +167,7 @@ TStep ==
                /\ (late => PrintT("KF " \o plan \o " " \o KFLate))
      /\ ((KFOn(KFPoller) /\ \E a \in Targets : PollerDiscounted(e, a)) => PrintT("KF " \o plan \o " " \o KFPoller))
      /\ l' = l + 1 /\ tr' = tr /\ hist' = hist
-     /\ UNCHANGED <<nf, nr, np, ns, nn, nh>>
+     /\ UNCHANGED <<nf, nr, np, ns, nn, nh, ne>>
      /\ ContractX(xt, xa, xr, xq)'
      /\ (Diag => PrintT("AT " \o ToString(plan) \o " " \o ToString(l)))
      /\ (l = Len(Traces[tr].events) => PrintT("ACC " \o plan))
